@@ -26,7 +26,7 @@ class C17(worldprop.WorldProp):
 
 
 P = C17("C17", "no_pred", [(k, v[0], v[1]) for k, v in SIZES.items()] + [("faults-tok", 0, 0)],
-        {151, 152, 154, 155, 156, 16, 17})
+        {151, 152, 154, 155, 156, 16, 17, 23, 24})   # stored secrets, mails, and the log lines
 
 
 def run(out, prelude):
